@@ -296,3 +296,19 @@ class HighOrderMutator(FirstOrderMutator):
         for generator in reversed(generators):
             value = next(generator, None)
             assert value is None, "too many mutations!"
+
+    def mutation_count(  # noqa: D102
+        self,
+        target_ast: ast.AST,
+        module: types.ModuleType,
+    ) -> int:
+        # A higher-order mutant combines several first-order mutations, so the
+        # first-order total of the base class over-reports what this mutator
+        # yields. Count the enumeration itself. The state of the random number
+        # generator is preserved, so that a strategy that shuffles (RANDOM) groups
+        # the mutations in the following enumeration exactly as while counting.
+        state = randomness.RNG.getstate()
+        try:
+            return sum(1 for _ in self.mutate(target_ast, module))
+        finally:
+            randomness.RNG.setstate(state)
